@@ -25,7 +25,7 @@ IDENTITY = re.compile(
     r"|::borrow$|::borrow_mut$|::deref$|::deref_mut$|::unwrap$|::expect$|::unwrap_or_default$|::unwrap_or$|::ok_or$|::ok_or_else$|::ok$|::copied$|::cloned$"
     r"|Try>::branch$|::from_residual$|::into_iter$|::iter$|::iter_mut$|::next$|::into_inner$|::read$|::write$|::lock$|::as_deref$|::as_deref_mut$"
     r"|::to_ascii_uppercase$|::to_uppercase$|::to_lowercase$|::to_ascii_lowercase$|::trim$|::take$|::first$|::last$|::get$|::get_mut$|::rev$|::enumerate$|::peekable$|::by_ref$"
-    r"|::collect$|::from_iter$|::as_bytes$|::into_boxed_slice$|::into_vec$|Box::<.*>::new$|Arc::<.*>::new$|RwLock::<.*>::new$|::unwrap_unchecked$|::into_bytes$|::chars$|::drain$|mem::take$|mem::replace$)"
+    r"|::collect$|::from_iter$|box_assume_init_into_vec_unsafe$|::assume_init$|::as_bytes$|::into_boxed_slice$|::into_vec$|Box::<.*>::new$|Arc::<.*>::new$|RwLock::<.*>::new$|::unwrap_unchecked$|::into_bytes$|::chars$|::drain$|mem::take$|mem::replace$)"
 )
 # wrappers whose constructor/variant structure is transparent for paths
 TRANSPARENT_VARIANTS = {"Some", "Ok", "Continue"}
@@ -141,7 +141,8 @@ class FnInfo:
                 p = t["dest"]
                 self.defs[p["l"]].append((path_of(p, self.consts), "call", t, self._through_deref(p), bi))
         # reference temps
-        for l, ds in self.defs.items():
+        for l, ds0 in self.defs.items():
+            ds = [d for d in ds0 if not d[3]]  # stores through the pointer are not definitions of the pointer itself
             if len(ds) == 1 and ds[0][1] == "rv" and not ds[0][0]:
                 rv = ds[0][2]
                 if rv["k"] in ("ref", "rawptr"):
@@ -150,6 +151,11 @@ class FnInfo:
                     q = op_place(rv["o"])
                     if q is not None:
                         self.ref_of[l] = q if self._is_refty(l) else None
+                elif rv["k"] == "cast" and self._is_refty(l):
+                    q = op_place(rv["o"])
+                    if q is not None:
+                        # pointer casts (Box internals `.0.pointer`, MaybeUninit views): alias of the owning local
+                        self.ref_of[l] = {"l": q["l"], "p": []} if any(isinstance(e, dict) and e.get("n") == "pointer" for e in q["p"]) else q
         self.ref_of = {k: v for k, v in self.ref_of.items() if v is not None}
         self._alias_defs_done = False
 
@@ -206,7 +212,7 @@ class Flow:
                 else:
                     res = (pl["l"], path_of(pl, info.consts))
             else:
-                ds = info.defs.get(l, [])
+                ds = [d for d in info.defs.get(l, []) if not d[3]]
                 if len(ds) == 1 and ds[0][1] == "call" and not ds[0][0] and info._is_refty(l):
                     t = ds[0][2]
                     n = callee_name(t) or ""
@@ -244,6 +250,9 @@ class Flow:
                 if thr and info._is_refty(l) and not (1 <= l <= info.b.argc):
                     pt = self.pointee(fid, l)
                     if pt is not None:
+                        if "MaybeUninit<" in info.b.locals[l]["ty"]["s"]:
+                            # MaybeUninit<T> { value: ManuallyDrop<T> { value: (T) } } is transparent
+                            path = tuple(x for i, x in enumerate(path) if not (x in ("value", "0") and all(y in ("value", "0") for y in path[:i + 1])))
                         extra.append((pt[0], (pt[1] + path, kind, payload, False, dbb)))
         b = info.b
         for bi, blk in enumerate(b.blocks):
